@@ -19,6 +19,10 @@ func (c *Core) SendBundle(bndl *bpv7.Bundle) {
 	// The sequence number is part of the bundle's ID and therefore of its key within the store. Thus, it must be
 	// assigned before the bundle is signed and stored.
 	c.idKeeper.update(bndl)
+	// The IdKeeper's state does not survive a restart; skip sequence numbers of bundles which are still stored.
+	for c.store.KnowsBundle(bndl.ID()) {
+		c.idKeeper.update(bndl)
+	}
 
 	if c.signPriv != nil && bndl.IsAdministrativeRecord() {
 		c.sendBundleAttachSignature(bndl)
